@@ -49,7 +49,7 @@ structure DSt where
   lim : Option Caps := none
   dry : Bool := false
   ctr : Ctr := {}
-  cfg : ArbCfg := ⟨-1, -1, -1, -1, -1, []⟩
+  cfg : ArbCfg := { maxGlobal := -1, maxNode := -1, maxNs := -1, maxMigr := -1, maxUnav := -1, replicas := [] }
   arb : ArbSt := {}
 
 def podsOf : List Int → List Pod
